@@ -97,12 +97,16 @@ impl<const D: usize> InvalidShapeError<D> {
     #[track_caller]
     #[inline]
     fn validate_dimensions_or_panic(shape: &[(Dimension, usize); D], data_len: usize) {
-        let elements = crate::tensors::dimensions::elements(shape);
-        if data_len != elements {
-            panic!(
+        match Self::checked_elements(shape) {
+            Some(elements) if elements == data_len => (),
+            Some(elements) => panic!(
                 "Product of dimension lengths must match size of data. {} != {}",
                 elements, data_len
-            );
+            ),
+            None => panic!(
+                "Product of dimension lengths overflows and cannot match size of data {}: {:?}",
+                data_len, &shape
+            ),
         }
         if crate::tensors::dimensions::has_duplicates(shape) {
             panic!("Dimension names must all be unique: {:?}", &shape);
@@ -112,10 +116,16 @@ impl<const D: usize> InvalidShapeError<D> {
         }
     }
 
+    // The product of the dimension lengths, or None if it does not fit into a usize
+    fn checked_elements(shape: &[(Dimension, usize); D]) -> Option<usize> {
+        shape
+            .iter()
+            .try_fold(1usize, |elements, d| elements.checked_mul(d.1))
+    }
+
     // Returns true if the shape is valid and matches the data length
     fn validate_dimensions(shape: &[(Dimension, usize); D], data_len: usize) -> bool {
-        let elements = crate::tensors::dimensions::elements(shape);
-        data_len == elements
+        Some(data_len) == Self::checked_elements(shape)
             && !crate::tensors::dimensions::has_duplicates(shape)
             && !shape.iter().any(|d| d.1 == 0)
     }
